@@ -52,7 +52,7 @@ static bool inEsc(unsigned mode, unsigned c, bool xml11) {
   if (mode == XMLFormatter::StdEscapes && (c == '&' || c == '>' || c == '"' || c == '<' || c == '\'')) return true;
   if (mode == XMLFormatter::AttrEscapes && (c == '&' || c == '<' || c == '"' || c == 0xA || c == 0xD || c == 0x9)) return true;
   if (mode == XMLFormatter::CharEscapes && (c == '&' || c == '<' || c == '>' || c == 0xD)) return true;
-  if (mode != XMLFormatter::NoEscapes || true) { if (xml11 && ((c >= 1 && c <= 0x1F) || (c >= 0x7F && c <= 0x9F)) && c != 0x9 && c != 0xA && c != 0xD && c != 0x85) return true; }
+  if (mode != XMLFormatter::NoEscapes) { if (xml11 && ((c >= 1 && c <= 0x1F) || (c >= 0x7F && c <= 0x9F)) && c != 0x9 && c != 0xA && c != 0xD && c != 0x85) return true; }
   return false;
 }
 extern "C" void harness_formatter(void) {
@@ -73,8 +73,6 @@ extern "C" void harness_formatter(void) {
     if (lead) VX_ASSUME(i + 1 < N && c[i + 1] >= 0xDC00 && c[i + 1] <= 0xDFFF);
     if (trail) VX_ASSUME(i > 0 && c[i - 1] >= 0xD800 && c[i - 1] <= 0xDBFF);
   }
-  // known finding C12/specialFormat-overread: after a trailing unrepresentable character the unit one past the buffer is examined
-  VX_KNOWN(c[N - 1] >= 0x80);
   bool threw = false;
   try { f->formatBuf(in, N, XMLFormatter::DefaultEscape, XMLFormatter::DefaultUnRep); } catch (const XMLException&) { threw = true; }
   // reference
@@ -90,13 +88,13 @@ extern "C" void harness_formatter(void) {
   VX_ASSERT(!threw, "formatting with character references for unrepresentable characters never throws");
   VX_ASSERT(vx_unrep_throw == 0, "the transcoder is never handed a character it cannot represent (it would throw)");
   VX_ASSERT(!tgt.overflow && tgt.n == rn, "number of bytes written equals the reference serialisation");
-  for (XMLSize_t i = 0; i < OUTMAX; i++) if (i < rn && tgt.n == rn) VX_ASSERT(tgt.buf[i] == ref[i], "bytes written equal the reference: raw iff representable and not in the escape set, else entity or &#xHEX;");
+  for (XMLSize_t i = 0; i < N * 10 + 2; i++) if (i < rn && tgt.n == rn) VX_ASSERT(tgt.buf[i] == ref[i], "bytes written equal the reference: raw iff representable and not in the escape set, else entity or &#xHEX;");
 #if N >= 2
   if (c[0] >= 0xD800 && c[0] <= 0xDBFF) VX_REACH("supplementary character written as one reference");
 #else
   if (c[0] >= 0x80) VX_REACH("unrepresentable character written as a reference");
 #endif
   if (c[0] == '<' && mode != XMLFormatter::NoEscapes) VX_REACH("markup character escaped");
-  if (xml11 && c[0] == 0x1 && mode == XMLFormatter::NoEscapes) VX_REACH("XML 1.1 control character");
+  if (xml11 && c[0] == 0x1 && mode == XMLFormatter::CharEscapes) VX_REACH("XML 1.1 control character written as a reference");
   free(in);
 }
